@@ -638,7 +638,9 @@ def main(tier):
     run.assume("a restart is only catalogued when complete (files are not "
                "added to an already catalogued restart)")
     run.assume("uniform stride per level inside a restart")
+    hs = runner.hashseed_children(PID, run) if tier == 'thorough' else []
     return run.finish({
+        'hash_seed_children': hs,
         'states': total['states'], 'transitions': total['transitions'],
         'traces_validated_against_impl': total['transitions'],
         'histories_pruned': total['pruned'],
